@@ -23,6 +23,8 @@ RULE = (
     "the body runs exactly once. Termination: recursion limit 300 frames above the entry and an event budget; RecursionError or "
     "budget overrun is a violation, a watchdog firing is inconclusive. Non-trivial = invocation made from inside another probe; "
     "distinct = (graph index, caller probe, callee, exemption class)."
+    ' Directed graphs (1 in 25): a pre / post / snapshot / invariant probe re-enters its own function every time it'
+    ' runs after another checked function ran in between (called by the probe and, every time, by the body).'
 )
 ASSUMPTIONS = ["all conditions hold in the bulk of this workload (so 'fully checked' means every contract evaluated); a share of the graphs has one falsy contract"]
 
